@@ -118,7 +118,9 @@ def corruptions(base, nbytes, quick, r):
     sh = base['shape']
     n = int(np.prod(sh)) if sh else 1
     shapes = [[-x for x in sh], sh + [-1, -1], [float(x) for x in sh], [str(x) for x in sh], [sh], '23', '',
-              n, None, [True] + sh[1:], [n, True], sh + [1], [x + 1 for x in sh], [], {}, [0] + sh[1:], [n]]
+              n, None, [True] + sh[1:], [n, True], sh + [1], [x + 1 for x in sh], [], {}, [0] + sh[1:], [n],
+              # a zero-length axis that is not the first one: no element, so the data file must be empty
+              sh[:1] + [0], sh[:1] + [0] + sh[1:], [0, 0], [1, 0, 3], sh + [0]]
     for s2 in shapes:
         d = copy.deepcopy(base); d['shape'] = s2; out.append((J(d), None, 'shape-variant'))
     for nt in NUMTYPES:
